@@ -26,8 +26,9 @@ CONSTANTS Nodes, VolCfg, EcCfg, Bits, Attrs, AsMin, MaxSlots, MaxOps, MaxSrv, St
           FixEcSync      \* UpdateEcShards computes its delta per ec volume (S15 repaired)
 VARIABLES srv, srvec, pend, sess,                       \* volume servers
           M,                                            \* master: [dnv, ecn, cnt, tot, loc, wr, over, ecmap]
-          nsrv, hist
-ivars == <<srv, srvec, pend, sess, M, nsrv, hist>>
+          nsrv, hist,
+          lastwr                                        \* the writable set before the last master event
+ivars == <<srv, srvec, pend, sess, M, nsrv, hist, lastwr>>
 vars == <<ivars, avars>>
 
 VIds == {r.id : r \in Range(VolCfg)}
@@ -61,7 +62,7 @@ Init == /\ srv = [n \in Nodes |-> <<>>] /\ srvec = [n \in Nodes |-> <<>>]
                 tot |-> IF StartUp THEN [Zero EXCEPT !.max = MaxSlots * Cardinality(Nodes)] ELSE Zero,
                 loc |-> [v \in VIds |-> <<>>], wr |-> {}, over |-> [v \in VIds |-> {}],
                 ecmap |-> [e \in EIds |-> {}]]
-        /\ nsrv = 0 /\ hist = Prefix
+        /\ nsrv = 0 /\ hist = Prefix /\ lastwr = {}
         /\ cfg = CfgB
         /\ conn = IF StartUp THEN Nodes ELSE {}
         /\ exp = [n \in Nodes |-> <<>>]
@@ -69,11 +70,12 @@ Init == /\ srv = [n \in Nodes |-> <<>>] /\ srvec = [n \in Nodes |-> <<>>]
         /\ expMax = [n \in Nodes |-> IF StartUp THEN [t \in {""} |-> MaxSlots] ELSE <<>>]
         /\ ghostEc = [v \in EIds |-> {}]
         /\ fresh = FALSE
+        /\ zomb = {} /\ lost = {}
 
 (* ------------------------------ volume servers ------------------------------ *)
 SrvBudget == nsrv < MaxSrv /\ nsrv' = nsrv + 1
 Queue(n, t, v, b) == pend' = [pend EXCEPT ![n] = @ \cup {[t |-> t, v |-> v, b |-> b]}]
-SrvOnly == UNCHANGED <<sess, M, hist, avars>>
+SrvOnly == UNCHANGED <<sess, M, hist, lastwr, avars>>
 SrvAdd(n, v) == /\ v \notin DOMAIN srv[n] /\ SrvBudget /\ srv' = [srv EXCEPT ![n] = Ext(@, v, Fresh0)]
                 /\ Queue(n, "newv", v, 0) /\ UNCHANGED srvec /\ SrvOnly
 SrvDel(n, v) == /\ v \in DOMAIN srv[n] /\ SrvBudget /\ srv' = [srv EXCEPT ![n] = Drop(@, v)]
@@ -175,7 +177,7 @@ ApplyCollect(m) ==                    \* SetVolumeCapacityFull for every registe
   [m EXCEPT !.wr = @ \ {v \in VIds : \E n \in Nodes : sess[n] # "down" /\ v \in DOMAIN m.dnv[n] /\ m.dnv[n][v].big}]
 
 (* ------------------------------ master events ------------------------------ *)
-Log(e) == hist' = Append(hist, e)
+Log(e) == hist' = Append(hist, e) /\ lastwr' = M.wr
 Budget == Len(hist) < Len(Prefix) + MaxOps
 VolSeq(vs) == SetToSeq({[id |-> v, ro |-> vs[v].ro, big |-> vs[v].big, rem |-> vs[v].rem] : v \in DOMAIN vs})
 EcSeq(act) == SetToSeq({[id |-> e, bits |-> SetToSeq(act[e])] : e \in DOMAIN act})
@@ -237,10 +239,12 @@ Snap ==
           \o SetToSeq({Lv("disk", n, M.cnt[n], TRUE) : n \in Up}),
    look |-> SetToSeq({[id |-> v, ns |-> M.loc[v]] : v \in VIds})
             \o SetToSeq({[id |-> e, ns |-> SetToSeq({p[2] : p \in M.ecmap[e]})] : e \in EIds}),
-   wr |-> SetToSeq(M.wr)]
+   wr |-> SetToSeq(M.wr), picks |-> <<>>, pp |-> FALSE]
 
 InvC12 == LET s == Snap IN C12OK(s)
-InvC11 == LET s == Snap IN C11Base(s) /\ LookupEcStale(s)      \* with the known finding C11-ec-lookup-after-disconnect admitted
+\* with the open findings C11-ec-lookup-after-disconnect and C11-oversized-joins-writable admitted
+InvC11 == LET s == Snap IN C11Base(s) /\ LookupEcStale(s) /\ RegBigStale(s, lastwr)
+InvC11NoEc == LET s == Snap IN C11Base(s) /\ LookupEcStale(s) /\ RegBigOK(s)   \* breaks with replication-as-minimum
 InvC11Strict == LET s == Snap IN C11OK(s)
 \* design level, directly on the model state (not through the snapshot)
 InvCounters == \A n \in Nodes : /\ M.cnt[n].vc = Cardinality(DOMAIN M.dnv[n])
@@ -252,8 +256,11 @@ InvWritable == \A v \in M.wr : /\ Enough(M, v)
                                /\ \A n \in Range(M.loc[v]) : v \in DOMAIN M.dnv[n] /\ ~M.dnv[n][v].ro
 InvLocations == \A v \in VIds : Range(M.loc[v]) = {n \in Up : v \in DOMAIN M.dnv[n]}
 
+\* model checking: the future and the invariants depend on hist only through its length
+MCView == <<srv, srvec, pend, sess, M, avars, lastwr, nsrv, Len(hist)>>
+
 (* ------------------------------ generators ------------------------------ *)
 Emit == Len(hist) < Len(Prefix) + MaxOps \/ PrintT(<<"W", ToJson(hist)>>)
-View == <<srv, srvec, pend, sess, M, avars, IF hist = <<>> THEN <<>> ELSE hist[Len(hist)]>>
+View == <<srv, srvec, pend, sess, M, avars, lastwr, IF hist = <<>> THEN <<>> ELSE hist[Len(hist)]>>
 EmitW == Len(hist) = Len(Prefix) \/ PrintT(<<"W", ToJson(hist)>>)
 =============================================================================
